@@ -3,7 +3,6 @@ Lemmas.Bits — facts about binades, `F64.to_bits_nat`, `F64.to_bits`, `F64.clas
 operations on the values that occur in `base.no_overlap`.
 -/
 import TFV.Spec.Defs
-import TFV.Spec.Rounding
 import Mathlib.Tactic.Ring
 import Mathlib.Tactic.Linarith
 import Mathlib.Tactic.NormNum
@@ -112,5 +111,325 @@ theorem to_bits_nat_normal (sg : Bool) {q s : Nat} (hq : 2 ^ 52 ≤ q) (hq' : q 
     omega
   · rw [if_neg h]
     simp only [log2_binade0 hq hq', Nat.add_sub_cancel, Nat.mul_div_cancel _ hP]
+
+/-! ## local rounding facts (binade formula, identity on `m·2^t`) -/
+
+/-- decomposed form of `rint` (local copy, so that this file does not depend on `TFV.Spec.Rounding`) -/
+theorem rint_add_mul (a r q : Nat) (hr : r < q) :
+    rint (a * q + r) q =
+      if 2 * r < q then a else if q < 2 * r then a + 1 else if a % 2 = 0 then a else a + 1 := by
+  have hq : 0 < q := by omega
+  have h1 : (a * q + r) / q = a := by
+    rw [Nat.add_comm, Nat.add_mul_div_right _ _ hq, Nat.div_eq_of_lt hr, Nat.zero_add]
+  have h2 : (a * q + r) % q = r := by
+    rw [Nat.add_comm, Nat.add_mul_mod_self_right, Nat.mod_eq_of_lt hr]
+  simp only [rint, h1, h2, gt_iff_lt]
+
+theorem rint_one (p : Nat) : rint p 1 = p := by
+  have := rint_add_mul p 0 1 (by decide)
+  simpa using this
+
+/-- explicit value of `rn53` inside a binade -/
+theorem rn53_binade_eq {q s r : Nat} (hq : 2 ^ 52 ≤ q) (hq' : q < 2 ^ 53) (hr : r < 2 ^ s) :
+    rn53 (q * 2 ^ s + r) =
+      (if 2 * r < 2 ^ s then q else if 2 ^ s < 2 * r then q + 1
+        else if q % 2 = 0 then q else q + 1) * 2 ^ s := by
+  have hP := two_pow_pos s
+  have hb := binade_bounds hq hq' hr
+  show roundQ (q * 2 ^ s + r) 1 = _
+  unfold roundQ
+  simp only [Nat.div_one, Nat.one_mul]
+  by_cases h : q * 2 ^ s + r < 2 ^ 53
+  · have hs : s = 0 := by
+      rcases Nat.eq_zero_or_pos s with h0 | h0
+      · exact h0
+      · exfalso
+        have h1 : 2 ^ (1 + 52) ≤ 2 ^ (s + 52) := Nat.pow_le_pow_right (by decide) (by omega)
+        omega
+    subst hs
+    have hr0 : r = 0 := by simpa using hr
+    subst hr0
+    rw [if_pos h, rint_one]
+    simp
+  · rw [if_neg h, log2_binade hq hq' hr, Nat.add_sub_cancel, rint_add_mul q r (2 ^ s) hr]
+
+/-- `rn53` is the identity on `m·2^t` with `m < 2^53` -/
+theorem rn53_mul_two_pow {m t : Nat} (hm : m < 2 ^ 53) : rn53 (m * 2 ^ t) = m * 2 ^ t := by
+  by_cases h : m * 2 ^ t < 2 ^ 53
+  · show roundQ (m * 2 ^ t) 1 = _
+    unfold roundQ
+    simp only [Nat.div_one]
+    rw [if_pos h, rint_one]
+  · have hx : 2 ^ 52 ≤ m * 2 ^ t := by omega
+    obtain ⟨q, s, r, hxe, hq, hq', hr, _⟩ := binade_decomp hx
+    have hb := binade_bounds hq hq' hr
+    have hst : s ≤ t := by
+      by_contra hlt
+      have h1 : 2 ^ (t + 53) ≤ 2 ^ (s + 52) := Nat.pow_le_pow_right (by decide) (by omega)
+      have h2 : m * 2 ^ t < 2 ^ 53 * 2 ^ t := Nat.mul_lt_mul_of_pos_right hm (two_pow_pos t)
+      rw [← Nat.pow_add, Nat.add_comm] at h2
+      omega
+    have hdvd : 2 ^ s ∣ m * 2 ^ t := Dvd.dvd.mul_left (Nat.pow_dvd_pow 2 hst) m
+    have hr0 : r = 0 := by
+      have h1 : (m * 2 ^ t) % 2 ^ s = 0 := Nat.mod_eq_zero_of_dvd hdvd
+      rw [hxe, Nat.add_comm, Nat.add_mul_mod_self_right, Nat.mod_eq_of_lt hr] at h1
+      exact h1
+    subst hr0
+    rw [hxe, rn53_binade_eq hq hq' hr]
+    simp [two_pow_pos s]
+
+theorem rn53_binade_eq_lo_iff {q s r : Nat} (hq : 2 ^ 52 ≤ q) (hq' : q < 2 ^ 53) (hr : r < 2 ^ s) :
+    rn53 (q * 2 ^ s + r) = q * 2 ^ s ↔ (2 * r < 2 ^ s ∨ (2 * r = 2 ^ s ∧ q % 2 = 0)) := by
+  have hP := two_pow_pos s
+  rw [rn53_binade_eq hq hq' hr, Nat.mul_left_inj (by omega)]
+  split_ifs <;> omega
+
+theorem rn53_binade_eq_hi_iff {q s r : Nat} (hq : 2 ^ 52 ≤ q) (hq' : q < 2 ^ 53) (hr : r < 2 ^ s) :
+    rn53 (q * 2 ^ s + r) = (q + 1) * 2 ^ s ↔ (2 ^ s < 2 * r ∨ (2 * r = 2 ^ s ∧ q % 2 = 1)) := by
+  have hP := two_pow_pos s
+  rw [rn53_binade_eq hq hq' hr, Nat.mul_left_inj (by omega)]
+  split_ifs <;> omega
+
+theorem rn53_binade_ge {q s r : Nat} (hq : 2 ^ 52 ≤ q) (hq' : q < 2 ^ 53) (hr : r < 2 ^ s) :
+    q * 2 ^ s ≤ rn53 (q * 2 ^ s + r) := by
+  rw [rn53_binade_eq hq hq' hr]
+  apply Nat.mul_le_mul_right
+  split_ifs <;> omega
+
+theorem rn53_binade_le {q s r : Nat} (hq : 2 ^ 52 ≤ q) (hq' : q < 2 ^ 53) (hr : r < 2 ^ s) :
+    rn53 (q * 2 ^ s + r) ≤ (q + 1) * 2 ^ s := by
+  rw [rn53_binade_eq hq hq' hr]
+  apply Nat.mul_le_mul_right
+  split_ifs <;> omega
+
+theorem mul_pow_ge {q s : Nat} (hq : 2 ^ 52 ≤ q) : 2 ^ (s + 52) ≤ q * 2 ^ s := by
+  rw [Nat.pow_add, Nat.mul_comm]; exact Nat.mul_le_mul_right _ hq
+
+theorem mul_pow_le {q s : Nat} (hq : q ≤ 2 ^ 53) : q * 2 ^ s ≤ 2 ^ (s + 53) := by
+  rw [Nat.pow_add, Nat.mul_comm (2 ^ s)]; exact Nat.mul_le_mul_right _ hq
+
+/-- representable lower bounds pass through rounding -/
+theorem rn53_ge {q s x : Nat} (hq : 2 ^ 52 ≤ q) (hq' : q ≤ 2 ^ 53) (hx : q * 2 ^ s ≤ x) :
+    q * 2 ^ s ≤ rn53 x := by
+  have hlo := mul_pow_ge (s := s) hq
+  have h52 : 2 ^ 52 ≤ 2 ^ (s + 52) := Nat.pow_le_pow_right (by decide) (by omega)
+  obtain ⟨q1, s1, r1, hxe, h1, h1', hr1, _⟩ := binade_decomp (x := x) (by omega)
+  have hb := binade_bounds h1 h1' hr1
+  have hfl := rn53_binade_ge h1 h1' hr1
+  rw [← hxe] at hfl hb
+  refine Nat.le_trans ?_ hfl
+  have hss : s ≤ s1 := by
+    by_contra hlt
+    have : 2 ^ (s1 + 53) ≤ 2 ^ (s + 52) := Nat.pow_le_pow_right (by decide) (by omega)
+    omega
+  obtain ⟨d, rfl⟩ := Nat.exists_eq_add_of_le hss
+  rw [Nat.pow_add, ← Nat.mul_assoc, Nat.mul_right_comm]
+  apply Nat.mul_le_mul_right
+  rcases Nat.eq_zero_or_pos d with hd | hd
+  · subst hd
+    simp only [Nat.add_zero, Nat.pow_zero, Nat.mul_one] at *
+    by_contra hlt
+    have h2 : (q1 + 1) * 2 ^ s ≤ q * 2 ^ s := Nat.mul_le_mul_right _ (by omega)
+    rw [Nat.add_mul] at h2
+    omega
+  · have h2 : 2 ^ 1 ≤ 2 ^ d := Nat.pow_le_pow_right (by decide) hd
+    have h3 := Nat.mul_le_mul h1 h2
+    omega
+
+/-- representable upper bounds pass through rounding -/
+theorem rn53_le {q s x : Nat} (hq' : q ≤ 2 ^ 53) (hx : x ≤ q * 2 ^ s) :
+    rn53 x ≤ q * 2 ^ s := by
+  by_cases hsmall : x < 2 ^ 53
+  · have : rn53 x = x := by
+      have := rn53_mul_two_pow (m := x) (t := 0) hsmall
+      simpa using this
+    omega
+  · obtain ⟨q1, s1, r1, hxe, h1, h1', hr1, _⟩ := binade_decomp (x := x) (by omega)
+    have hb := binade_bounds h1 h1' hr1
+    rcases Nat.eq_zero_or_pos r1 with hr0 | hr0
+    · subst hr0
+      have : rn53 x = x := by
+        rw [hxe]; simpa using rn53_mul_two_pow (t := s1) h1'
+      omega
+    · have hce := rn53_binade_le h1 h1' hr1
+      rw [← hxe] at hce hb
+      refine Nat.le_trans hce ?_
+      have hhi := mul_pow_le (s := s) hq'
+      have hlo1 := mul_pow_ge (s := s1) h1
+      have hss : s1 ≤ s := by
+        by_contra hlt
+        have : 2 ^ (s + 53) ≤ 2 ^ (s1 + 52) := Nat.pow_le_pow_right (by decide) (by omega)
+        omega
+      obtain ⟨d, rfl⟩ := Nat.exists_eq_add_of_le hss
+      rw [Nat.pow_add, ← Nat.mul_assoc, Nat.mul_right_comm] at hx ⊢
+      apply Nat.mul_le_mul_right
+      by_contra hlt
+      have h2 : q * 2 ^ d * 2 ^ s1 ≤ q1 * 2 ^ s1 := Nat.mul_le_mul_right _ (by omega)
+      omega
+
+/-! ## `IntN` helpers -/
+
+theorem bitsNat_natCast {sg : Bool} {b : Nat} (m : Nat) (h : m < 2 ^ b) :
+    (⟨(m : Int)⟩ : IntN sg b).bitsNat = m := by
+  unfold IntN.bitsNat
+  simp only
+  rw [← Int.natCast_mod, Int.toNat_natCast, Nat.mod_eq_of_lt h]
+
+theorem wrap_natCast_unsigned {b : Nat} (m : Nat) (h : m < 2 ^ b) :
+    (IntN.wrap (m : Int) : IntN false b) = ⟨(m : Int)⟩ := by
+  unfold IntN.wrap IntN.wrapV
+  simp only [Bool.false_and, Bool.false_eq_true, if_false]
+  rw [← Int.natCast_mod, Nat.mod_eq_of_lt h]
+
+theorem land_natCast (m k : Nat) (hm : m < 2 ^ 64) (hk : k < 2 ^ 64) :
+    ((⟨(m : Int)⟩ : U64) &&& (⟨(k : Int)⟩ : U64)) = ⟨((m &&& k : Nat) : Int)⟩ := by
+  show IntN.wrap ((Nat.land (IntN.bitsNat (⟨(m : Int)⟩ : U64)) (IntN.bitsNat (⟨(k : Int)⟩ : U64)) : Nat) : Int) = _
+  rw [bitsNat_natCast m hm, bitsNat_natCast k hk]
+  exact wrap_natCast_unsigned _ (Nat.lt_of_le_of_lt Nat.and_le_left hm)
+
+theorem shr52_natCast (m : Nat) : ((⟨(m : Int)⟩ : U64) >>> (52 : I32)) = ⟨((m / 2 ^ 52 : Nat) : Int)⟩ := by
+  show (⟨(m : Int) / ((2 ^ (Int.toNat 52) : Nat) : Int)⟩ : U64) = _
+  simp
+
+theorem mantissa_mask_eq : base.MANTISSA_MASK = ⟨((2 ^ 52 - 1 : Nat) : Int)⟩ := by decide +kernel
+theorem exponent_mask_eq : base.EXPONENT_MASK = ⟨((2047 : Nat) : Int)⟩ := rfl
+
+theorem beq_zero_natCast (m : Nat) : ((⟨(m : Int)⟩ : U64) ==. (0 : U64)) = decide (m = 0) := by
+  show decide ((m : Int) = ((0 : Nat) : Int)) = decide (m = 0)
+  simp
+
+theorem one_u64 : (1 : U64) = ⟨((1 : Nat) : Int)⟩ := rfl
+
+/-- `i64 as i16` on a small non-negative value -/
+theorem cast_u64_i16 (m : Nat) (h : m < 2 ^ 15) :
+    (RCast.cast (⟨(m : Int)⟩ : U64) : I16) = ⟨(m : Int)⟩ := by
+  show (IntN.wrap (m : Int) : I16) = _
+  unfold IntN.wrap IntN.wrapV
+  have h1 : (m : Int) % ((2 ^ 16 : Nat) : Int) = (m : Int) := by
+    rw [← Int.natCast_mod, Nat.mod_eq_of_lt (by omega)]
+  simp only [h1, Bool.true_and]
+  rw [if_neg]
+  simp only [ge_iff_le, decide_eq_true_eq, not_le]
+  exact_mod_cast h
+
+/-! ## the bit pattern of a normal number and the fields `no_overlap` extracts from it -/
+
+/-- bit pattern of `±q·2^s` (`2^52 ≤ q < 2^53`) -/
+def bitsVal (sg : Bool) (q s : Nat) : Nat :=
+  (if sg then 2 ^ 63 else 0) + ((s + 1) * 2 ^ 52 + (q - 2 ^ 52))
+
+theorem bitsVal_lt (sg : Bool) {q s : Nat} (hq' : q < 2 ^ 53) (hs : s ≤ 2045) :
+    bitsVal sg q s < 2 ^ 64 := by
+  unfold bitsVal; cases sg <;> simp <;> omega
+
+theorem bitsVal_exp (sg : Bool) {q s : Nat} (hq : 2 ^ 52 ≤ q) (hq' : q < 2 ^ 53) (hs : s ≤ 2045) :
+    (bitsVal sg q s / 2 ^ 52) % 2 ^ 11 = s + 1 := by
+  unfold bitsVal; cases sg <;> simp <;> omega
+
+theorem bitsVal_mant (sg : Bool) {q s : Nat} (hq : 2 ^ 52 ≤ q) (hq' : q < 2 ^ 53) :
+    bitsVal sg q s % 2 ^ 52 = q - 2 ^ 52 := by
+  unfold bitsVal; cases sg <;> simp <;> omega
+
+theorem bitsVal_parity (sg : Bool) {q s : Nat} (hq : 2 ^ 52 ≤ q) :
+    bitsVal sg q s % 2 = q % 2 := by
+  unfold bitsVal; cases sg <;> simp <;> omega
+
+theorem to_bits_normal (sg : Bool) {q s : Nat} (hq : 2 ^ 52 ≤ q) (hq' : q < 2 ^ 53) :
+    F64.to_bits (fin sg (q * 2 ^ s)) = ⟨(bitsVal sg q s : Int)⟩ := by
+  unfold F64.to_bits
+  rw [to_bits_nat_normal sg hq hq']; rfl
+
+/-- the biased exponent field, as the `i16` the crate computes -/
+theorem biased_exponent_normal (sg : Bool) {q s : Nat} (hq : 2 ^ 52 ≤ q) (hq' : q < 2 ^ 53)
+    (hs : s ≤ 2045) :
+    (RCast.cast ((F64.to_bits (fin sg (q * 2 ^ s)) >>> (52 : I32)) &&& base.EXPONENT_MASK) : I16)
+      = ⟨((s + 1 : Nat) : Int)⟩ := by
+  rw [to_bits_normal sg hq hq', shr52_natCast, exponent_mask_eq]
+  have hlt := bitsVal_lt sg hq' hs
+  rw [land_natCast _ _ (Nat.lt_of_le_of_lt (Nat.div_le_self _ _) hlt) (by decide)]
+  have h : (bitsVal sg q s / 2 ^ 52) &&& 2047 = s + 1 := by
+    rw [show (2047 : Nat) = 2 ^ 11 - 1 from rfl, Nat.and_two_pow_sub_one_eq_mod]
+    exact bitsVal_exp sg hq hq' hs
+  rw [h]
+  exact cast_u64_i16 _ (by omega)
+
+/-- the mantissa field is zero exactly for powers of two -/
+theorem mantissa_zero_normal (sg : Bool) {q s : Nat} (hq : 2 ^ 52 ≤ q) (hq' : q < 2 ^ 53)
+    (hs : s ≤ 2045) :
+    ((F64.to_bits (fin sg (q * 2 ^ s)) &&& base.MANTISSA_MASK) ==. (0 : U64)) = decide (q = 2 ^ 52) := by
+  rw [to_bits_normal sg hq hq', mantissa_mask_eq]
+  rw [land_natCast _ _ (bitsVal_lt sg hq' hs) (by decide)]
+  rw [Nat.and_two_pow_sub_one_eq_mod, bitsVal_mant sg hq hq']
+  rw [beq_zero_natCast]
+  exact decide_eq_decide.2 (by omega)
+
+/-- the lowest bit is the parity of the 53-bit significand -/
+theorem low_bit_normal (sg : Bool) {q s : Nat} (hq : 2 ^ 52 ≤ q) (hq' : q < 2 ^ 53)
+    (hs : s ≤ 2045) :
+    ((F64.to_bits (fin sg (q * 2 ^ s)) &&& (1 : U64)) ==. (0 : U64)) = decide (q % 2 = 0) := by
+  rw [to_bits_normal sg hq hq']
+  rw [one_u64, land_natCast _ _ (bitsVal_lt sg hq' hs) (by decide)]
+  rw [Nat.and_one_is_mod, bitsVal_parity sg hq, beq_zero_natCast]
+
+/-! ## the `i16 → f64` cast and `exp2` on it -/
+
+theorem ofInt_small (k : Int) (hk : k.natAbs < 2 ^ 53) :
+    F64.ofInt k = if k = 0 then fin false 0 else fin (decide (k < 0)) (k.natAbs * 2 ^ 1074) := by
+  have hP : (0 : Int) < ((2 ^ 1074 : Nat) : Int) := by exact_mod_cast two_pow_pos 1074
+  unfold F64.ofInt roundSigned
+  by_cases h0 : k = 0
+  · subst h0; simp
+  · have h1 : k * ((2 ^ 1074 : Nat) : Int) ≠ 0 := Int.mul_ne_zero h0 (by omega)
+    rw [if_neg h1, if_neg h0]
+    have h2 : (k * ((2 ^ 1074 : Nat) : Int)).natAbs = k.natAbs * 2 ^ 1074 := by
+      rw [Int.natAbs_mul, Int.natAbs_natCast]
+    have h3 : roundQ (k.natAbs * 2 ^ 1074) 1 = k.natAbs * 2 ^ 1074 := rn53_mul_two_pow hk
+    have h4 : decide (k * ((2 ^ 1074 : Nat) : Int) < 0) = decide (k < 0) := by
+      apply decide_eq_decide.2
+      constructor
+      · intro h; by_contra hn
+        have : 0 ≤ k * ((2 ^ 1074 : Nat) : Int) := Int.mul_nonneg (by omega) (by omega)
+        omega
+      · intro h; exact Int.mul_neg_of_neg_of_pos h hP
+    rw [h2, h3, h4]
+    unfold pack
+    rw [if_neg]
+    unfold maxFin
+    have : k.natAbs * 2 ^ 1074 ≤ (2 ^ 53 - 1) * 2 ^ 2045 :=
+      Nat.mul_le_mul (by omega) (Nat.pow_le_pow_right (by decide) (by decide))
+    omega
+
+theorem exp2_ofInt (k : Int) (hk : k.natAbs < 2 ^ 53) : F64.exp2 (F64.ofInt k) = F64.exp2Int k := by
+  rw [ofInt_small k hk]
+  by_cases h0 : k = 0
+  · subst h0; simp [F64.exp2, F64.unit]
+  · rw [if_neg h0]
+    have hP := two_pow_pos 1074
+    unfold F64.exp2 F64.unit
+    simp only [Nat.mul_mod_left, if_true, Nat.mul_div_cancel _ hP]
+    congr 1
+    by_cases hneg : k < 0
+    · simp only [hneg, decide_true, if_true]; omega
+    · simp only [hneg, decide_false, Bool.false_eq_true, if_false]; omega
+
+theorem exp2Int_limit (s c : Nat) (hs : s ≤ 2045) :
+    F64.exp2Int ((s : Int) - 1074 - (c : Int)) = fin false (if c ≤ s then 2 ^ (s - c) else 0) := by
+  unfold F64.exp2Int
+  rw [if_neg (by omega)]
+  by_cases h : c ≤ s
+  · rw [if_neg (by omega), if_pos h]
+    congr 2
+    omega
+  · rw [if_pos (by omega), if_neg h]
+
+/-- the limit `libm::exp2((biased_exponent - offset) as f64)` for offset `1075 + c` -/
+theorem limit_eq (s c : Nat) (hs : s ≤ 2045) (hc : c ≤ 2) (off : I16) (hoff : off.v = 1075 + (c : Int)) :
+    F64.exp2 (RCast.cast ((⟨((s + 1 : Nat) : Int)⟩ : I16) -. off) : F64)
+      = fin false (if c ≤ s then 2 ^ (s - c) else 0) := by
+  show F64.exp2 (F64.ofInt (((s + 1 : Nat) : Int) - off.v)) = _
+  rw [hoff, exp2_ofInt _ (by omega)]
+  have : ((s + 1 : Nat) : Int) - (1075 + (c : Int)) = (s : Int) - 1074 - (c : Int) := by
+    push_cast; ring
+  rw [this, exp2Int_limit s c hs]
 
 end F64.Bits
